@@ -17,10 +17,12 @@ class State:
         self.slots: Dict[str, Poly] = dict(slots or {})
         self.alive = alive
         self.conds: List[tuple] = []      # path condition (cmp normal forms)
+        self.bools: Dict[str, tuple] = {}  # locals that hold a condition (`ok = a < b and c`): their CMP normal form
 
     def copy(self) -> "State":
         s = State(self.locals, self.slots, self.alive)
         s.conds = list(self.conds)
+        s.bools = dict(self.bools)
         return s
 
 
@@ -55,6 +57,7 @@ def join(a: State, b: State, cond=None) -> State:
             out.slots[k] = Poly.atom(f"phi#{_phi_counter[0]}({k})")
     # common prefix of the path conditions
     out.conds = [c for c in a.conds if c in b.conds]
+    out.bools = {k: v for k, v in a.bools.items() if b.bools.get(k) == v}
     return out
 
 
@@ -106,6 +109,22 @@ class Forward:
 
     def cmp(self, e: ast.AST, neg: bool = False):
         self._bind()
+        if isinstance(e, ast.Name) and e.id in self.st.bools:
+            from .dataflow import cmp_negate
+            c = self.st.bools[e.id]
+            return cmp_negate(c) if neg else c
+        if isinstance(e, ast.UnaryOp) and isinstance(e.op, ast.Not):
+            return self.cmp(e.operand, not neg)
+        if isinstance(e, ast.BoolOp) and any(isinstance(v, ast.Name) and v.id in self.st.bools for v in ast.walk(e)):
+            from .dataflow import cmp_key
+            kids = [self.cmp(v, neg) for v in e.values]
+            op = "and" if isinstance(e.op, ast.And) else "or"
+            if neg:
+                op = "or" if op == "and" else "and"
+            flat = []
+            for k in kids:
+                flat.extend(k[1] if k[0] == op else [k])
+            return (op, sorted(flat, key=cmp_key))
         return self.sym.cmp(e, None, 0, neg)
 
     def slot_key(self, target: ast.AST) -> Optional[str]:
@@ -270,6 +289,7 @@ class Forward:
 
     def _store(self, target: ast.AST, val: Optional[Poly]):
         if isinstance(target, ast.Name):
+            self.st.bools.pop(target.id, None)
             self.st.locals[target.id] = val if val is not None else Poly.atom(f"{target.id}@opaque{self.version}")
         elif isinstance(target, (ast.Attribute, ast.Subscript)):
             k = self.slot_key(target)
@@ -314,9 +334,12 @@ class Forward:
                     self._store(t, v)
             else:
                 v = self.ev(s.value)
+                cond_form = self.cmp(s.value) if isinstance(s.value, (ast.Compare, ast.BoolOp)) or (isinstance(s.value, ast.UnaryOp) and isinstance(s.value.op, ast.Not)) else None
                 self._invalidate_calls(s.value)
                 for t in s.targets:
                     self._store(t, v)
+                    if cond_form is not None and isinstance(t, ast.Name):
+                        self.st.bools[t.id] = cond_form
         elif isinstance(s, ast.AnnAssign):
             if s.value is not None:
                 v = self.ev(s.value)
